@@ -19,6 +19,7 @@ type Wire struct {
 	p           *Prog
 	StoreKeys   []string // names passed to sdk.NewKVStoreKeys
 	StoreKeyPos token.Pos
+	StoreModule map[string]string // store key -> module name (ModuleName constant of the package the key constant comes from)
 	MaccPerms   map[string][]string
 	MaccPos     token.Pos
 	Orders      map[string][]string // SetOrderBeginBlockers/EndBlockers/InitGenesis/ExportGenesis -> names
@@ -163,6 +164,25 @@ func BuildWire(p *Prog) *Wire {
 					case name == "sdk/types.NewKVStoreKeys":
 						w.StoreKeys = append(w.StoreKeys, w.constList(info, x.Args, "NewKVStoreKeys")...)
 						w.StoreKeyPos = x.Pos()
+						// module owning each store key: the ModuleName constant declared next to the StoreKey constant used
+						for _, a := range x.Args {
+							k, ok := constStr(info, a)
+							if !ok {
+								continue
+							}
+							mod := k
+							if sel, ok := a.(*ast.SelectorExpr); ok {
+								if o := info.Uses[sel.Sel]; o != nil && o.Pkg() != nil {
+									if mn, ok := o.Pkg().Scope().Lookup("ModuleName").(*types.Const); ok && mn.Val().Kind() == constant.String {
+										mod = constant.StringVal(mn.Val())
+									}
+								}
+							}
+							if w.StoreModule == nil {
+								w.StoreModule = map[string]string{}
+							}
+							w.StoreModule[k] = mod
+						}
 					case strings.HasSuffix(name, "types/module.Manager).SetOrderBeginBlockers"),
 						strings.HasSuffix(name, "types/module.Manager).SetOrderEndBlockers"),
 						strings.HasSuffix(name, "types/module.Manager).SetOrderInitGenesis"),
